@@ -114,7 +114,7 @@ pub fn run(ctx: &mut Ctx, _replay: Option<&[String]>) {
     }
     // ---------------------------------------------------------------- decode: all 36 names, call sequences on one handle
     for imp in &impls {
-        for _ in 0..ctx.scale(12, 300) {
+        for _ in 0..ctx.scale(12, 1500) {
             let (h, fam) = gen_matrix(&mut rng, 24);
             let n = h.num_cols();
             // puncturing pattern whose length divides n
@@ -168,7 +168,7 @@ pub fn run(ctx: &mut Ctx, _replay: Option<&[String]>) {
         }
     }
     // ---------------------------------------------------------------- encode
-    for _ in 0..ctx.scale(300, 6000) {
+    for _ in 0..ctx.scale(300, 40000) {
         let (h, fam) = crate::c02::gen_h(&mut rng, 8, 18);
         let h = SparseMatrix::from_alist(&h.alist()).unwrap(); // the handle sees the matrix through its alist
         let Ok(enc) = Encoder::from_h(&h) else { continue };
